@@ -94,32 +94,41 @@ def check(ctx, run):
     hh = W.hedger(prog, fobjs)
     allres = interp.explore(ch, [W.option()], {"hedge": hedge}, self_obj=hh)
     res = [r for r in allres if not r["raises"]]
-    if len(res) != 1:
-        why = allres[0]["raises"].exc if allres and allres[0]["raises"] else f"{len(res)} paths"
+    if not res:
+        why = allres[0]["raises"].exc if allres and allres[0]["raises"] else "no path"
         fact(run, prog, ch, "C03.R3f", f"inputs containing prev_hedge take the step-by-step branch (found: {str(why)[:80]})", False)
         return
-    ev = res[0]["events"]
-    idx_loop = next((k for k, e in enumerate(ev) if e["kind"] == "loop_begin"), None)
-    okc = False
-    whyc = "no loop"
-    if idx_loop is not None:
-        pre = [e for e in ev[:idx_loop] if e["kind"] == "register_buffer" and e["name"] == "prev_output"]
-        if pre:
-            t = same_values(pre[-1]["tensor"])
-            shape = t.args[1] if isinstance(t, Op) and t.op == "new_zeros" and len(t.args) > 1 else None
-            okc = isinstance(shape, tuple) and len(shape) == 3 and shape[1] == 1 and shape[2] == 2 and isinstance(t.args[0], Sym) and t.args[0].name == "hA.spot"
-            whyc = f"reset value {str(t)[:90]}"
-        else:
-            whyc = "prev_output is not reset before the loop"
-    fact(run, prog, ch, "C03.R3c", "prev_output reset to zeros of shape (N, 1, H) from hedge[0].spot before the loop: " + whyc, okc)
-    inloop = [e for e in ev[idx_loop:] if e["kind"] == "register_buffer" and e["name"] == "prev_output"] if idx_loop is not None else []
-    calls = [e for e in ev[idx_loop:] if e["kind"] == "opaque_call" and isinstance(e["callee"], Sym) and e["callee"].name == "model"] if idx_loop is not None else []
-    okd = len(inloop) == 1 and len(calls) == 1 and same_values(inloop[0]["tensor"]) == Op("call", (calls[0]["callee"],) + tuple(calls[0]["args"]), calls[0]["kwargs"])
-    fact(run, prog, ch, "C03.R3d", "inside the loop the model runs through self(input) so the hook stores its output", okd)
-    carried = ev[idx_loop].get("carried", []) if idx_loop is not None else []
-    model_in = calls[0]["args"][0] if calls else None
-    oke = any(k == "__buf_prev_output" for k, _ in carried) and model_in is not None and any(isinstance(s, Sym) and s.name.startswith("carried:__buf_prev_output") for s in walk(model_in))
-    fact(run, prog, ch, "C03.R3e", "the model input at step i contains the buffer written at step i-1", oke)
+    # every path through compute_hedge (a helper may branch on what it finds on the hedger) must satisfy the chain facts
+    verdicts = {"c": [], "d": [], "e": []}
+    idx_loop = None
+    for r_ in res:
+        ev = r_["events"]
+        tag = "" if len(res) == 1 else " [path " + ",".join(f"{str(c_)[:30]}={d_}" for c_, d_, _ in r_["cond"]) + "]"
+        idx_loop = next((k for k, e in enumerate(ev) if e["kind"] == "loop_begin"), None)
+        okc = False
+        whyc = "no loop"
+        if idx_loop is not None:
+            pre = [e for e in ev[:idx_loop] if e["kind"] == "register_buffer" and e["name"] == "prev_output"]
+            if pre:
+                t = same_values(pre[-1]["tensor"])
+                shape = t.args[1] if isinstance(t, Op) and t.op == "new_zeros" and len(t.args) > 1 else None
+                okc = isinstance(shape, tuple) and len(shape) == 3 and shape[1] == 1 and shape[2] == 2 and isinstance(t.args[0], Sym) and t.args[0].name == "hA.spot"
+                whyc = f"reset value {str(t)[:90]}"
+            else:
+                whyc = "prev_output is not reset before the loop"
+        verdicts["c"].append((okc, whyc + tag))
+        inloop = [e for e in ev[idx_loop:] if e["kind"] == "register_buffer" and e["name"] == "prev_output"] if idx_loop is not None else []
+        calls = [e for e in ev[idx_loop:] if e["kind"] == "opaque_call" and isinstance(e["callee"], Sym) and e["callee"].name == "model"] if idx_loop is not None else []
+        okd = len(inloop) == 1 and len(calls) == 1 and same_values(inloop[0]["tensor"]) == Op("call", (calls[0]["callee"],) + tuple(calls[0]["args"]), calls[0]["kwargs"])
+        verdicts["d"].append((okd, tag))
+        carried = ev[idx_loop].get("carried", []) if idx_loop is not None else []
+        model_in = calls[0]["args"][0] if calls else None
+        oke = any(k == "__buf_prev_output" for k, _ in carried) and model_in is not None and any(isinstance(s, Sym) and s.name.startswith("carried:__buf_prev_output") for s in walk(model_in))
+        verdicts["e"].append((oke, tag))
+    worst = lambda k_: next((v for v in verdicts[k_] if not v[0]), verdicts[k_][0])
+    fact(run, prog, ch, "C03.R3c", "prev_output reset to zeros of shape (N, 1, H) from hedge[0].spot before the loop: " + worst("c")[1], worst("c")[0])
+    fact(run, prog, ch, "C03.R3d", "inside the loop the model runs through self(input) so the hook stores its output" + worst("d")[1], worst("d")[0])
+    fact(run, prog, ch, "C03.R3e", "the model input at step i contains the buffer written at step i-1" + worst("e")[1], worst("e")[0])
     # branch selection
     hv = W.hedger(prog, [W.feature("Moneyness", log=False)])
     resv = [r for r in interp.explore(ch, [W.option()], {}, self_obj=hv) if not r["raises"]]
